@@ -70,14 +70,12 @@ add("F22", B, "C01.bounds|bump|state_temp_base", "WASM state-exchange region 512
 
 # ---- stated beliefs (C03.belief; the same sites are cited by C04.belief) -------------------------------
 add("F7", ["C03"], 'C03.belief|site|compiler::mirgen::Context::try_make_delay|unreachable|unreachable!("unbounded delay access, should be an error at typing stage.")', "delay(n, x, t) with a non-literal n: unreachable! in mirgen on both back ends (the type checker accepts it)")
-add("F8", ["C03"], 'C03.belief|site|compiler::typing::InferContext::infer_type|unimplemented|unimplemented!("Assignment to array is not implemented yet.")', "`a[0] = 3.0`: unimplemented! inside the type checker")
-add("F8", ["C03"], 'C03.belief|site|compiler::mirgen::Context::eval_destination_ptr|unimplemented|unimplemented!("Assignment to array is not implemented yet.")', "`a[0] = 3.0`: second abort for the same construct in mirgen (shadowed by the type checker's)")
-add("F8", ["C03"], 'C03.belief|site|compiler::mirgen::Context::eval_expr_as_address|unimplemented|unimplemented!("Array element assignment is not implemented yet.")', "`a[0] = 3.0`: third abort for the same construct in mirgen")
+fixed("F8", "C03", "c700c48", 'C03.belief|site|compiler::typing::InferContext::infer_type|unimplemented|unimplemented!("Assignment to array is not implemented yet.")', "`a[0] = 3.0` hit unimplemented!() inside the type checker (both back ends); now the diagnostic ArrayElementAssignment (findings/repro/F8_*.mmm)")
 add("F23", ["C03"], "C03.belief|site|<mir::StateType as std::convert::From<interner::TypeNodeId>>::from|todo|todo!()", "`self` in a function whose return type is a string, a sum type, ...: todo!() in StateType::from panics the compiler on both back ends (findings/repro/F23_*.mmm)")
 
 # ---- C13 -------------------------------------------------------------------------------------------------
 add("F10", ["C13"], "C13.trivia|loss|compiler::parser::preparser::preparse|clear", "preparse discards trivia that precedes the first syntax token when it ends in a line break (pending_trivia.clear()); asserted by the repo's own unit test test_preparse_leading_trivia, so it cannot be repaired without editing tests")
-add("F8", ["C04"], 'C04.belief|site|compiler::typing::InferContext::infer_type|unimplemented|unimplemented!("Assignment to array is not implemented yet.")', "`a[0] = 3.0`: unimplemented! inside the type checker (a syntactically valid text crashes the front end)")
+fixed("F8", "C04", "c700c48", 'C04.belief|site|compiler::typing::InferContext::infer_type|unimplemented|unimplemented!("Assignment to array is not implemented yet.")', "same defect seen from the front-end entry points")
 
 # ---- C05 -------------------------------------------------------------------------------------------------
 for _p in ("C05", "C07"):
